@@ -752,8 +752,15 @@ class ManifestRecursiveLoader:
 
         fixed_manifests = set()
         renamed_manifests = {}
-        for mpath, relpath, m in self._iter_manifests_for_path(
-                '', recursive=True):
+        # children before parents; within one directory, a Manifest
+        # referenced by another one is always loaded after it, so going
+        # through them in reverse load order saves it first
+        save_order = sorted(
+                reversed(list(self._iter_unordered_manifests_for_path(
+                    '', recursive=True))),
+                key=lambda kdv: len(kdv[1]),
+                reverse=True)
+        for mpath, relpath, m in save_order:
             for e in m.entries:
                 if e.tag != 'MANIFEST':
                     continue
